@@ -344,13 +344,16 @@ def gcLogPref (k : Consts α) (c : Ctx α) : Option α :=
 /-- `GrandCanonicalCriteria.evaluate(context)`: `_metropolis(rng, exponential + log_prefactor)`; with `log_prefactor = -inf`
     the Python expression is `exponent >= 0 or u < math.exp(exponent)` at `-inf` (or `nan`): false for every `u ≥ 0` -/
 def gcEvaluate (k : Consts α) (c : Ctx α) (t : Trial α) (u : α) : Bool :=
-  match gcLogPref k c with
-  | none => false
-  | some lp => acceptFixed u (gcExpo k c t + lp)
+  if ¬ (Num.zero : α) < c.exchangeMass then false      -- no exchange species configured: `_metropolis(rng, -inf)`
+  else
+    match gcLogPref k c with
+    | none => false
+    | some lp => acceptFixed u (gcExpo k c t + lp)
 
 /-- the same with `math.log` / `math.exp` as the partial functions Python has (`gc_evaluate_total`: never fails for
     positive volume, temperature, mass and constants) -/
 def gcEvaluateE (k : Consts α) (c : Ctx α) (t : Trial α) (u : α) : Except PyErr Bool :=
+  if ¬ (Num.zero : α) < c.exchangeMass then .ok false else
   match pyLog c.accessibleVolume, pyLog c.temperature,
         pyLog (Num.npow k.hplanck 2 / (Num.two * Num.pi * c.exchangeMass * k.kB / k.nav * milli * k.e)) with
   | .ok _, .ok _, .ok _ =>
